@@ -54,7 +54,7 @@ def replay_cases(ctx, bins, cases, tag):
             else:
                 got = {k: r[k] for k in ("kind", "msg", "got_len", "got_head")}
             n_bad += 1
-            ctx.violation({"dir": "spec->impl", "entry": ent[0], "cls": ent[1], "why": ent[2], "var": c["var"], "fmt": c["fmt"],
+            ctx.violation({"dir": "spec->impl", "entry": ent[0], "cls": ent[1], "why": ent[2], "fam": c["fam"], "var": c["var"], "fmt": c["fmt"],
                            "got": got["kind"], "msg": got["msg"][:100], "profile": p},
                           {"case": c, "entry": ent, "got": got, "profile": p})
     return len(flat), n_bad
@@ -149,7 +149,7 @@ def run(ctx):
     ctx.sample({"fuzz_event": {k: events[len(events) // 3][k] for k in ("entry", "tag", "stream", "res")}})
     summ = {}
     for v in ctx.viol:
-        k = "%s %s/%s -> %s %s" % (v["dir"], v.get("cls", "-"), v.get("why", v.get("tag", "-")), v["got"], v["msg"][:40])
+        k = "%s %s %s/%s -> %s %s" % (v["dir"], v.get("fam", "-"), v.get("cls", "-"), v.get("why", v.get("tag", "-")), v["got"], v["msg"][:40])
         summ[k] = summ.get(k, 0) + 1
     if summ:
         ctx.extra["violation_summary"] = summ
